@@ -32,7 +32,8 @@ func (rs References) GetReferences(table, uuid string) References {
 			continue
 		}
 		if _, ok := values[uuid]; ok {
-			refs[spec] = Reference{uuid: values[uuid]}
+			// hand out a copy, callers apply differences in place
+			refs[spec] = Reference{uuid: append([]string(nil), values[uuid]...)}
 		}
 	}
 	return refs
